@@ -1,5 +1,6 @@
 import DryocVerif.Model.Protected
 import DryocVerif.Proofs.Protected
+import DryocVerif.Proofs.GenProtected
 /-
 C14 — protected memory: page coverage of the protection calls, the state invariant of the
 whole model (permissions, lock flags, guard pages, disjointness) along arbitrary token
@@ -329,5 +330,41 @@ example :
     (mprotectLenMinus1 4096 Kernel.init 4096 4097 .none).perm 2 = .rw ∧
     (mprotect 4096 Kernel.init 4096 4097 .none).perm 2 = .none := by
   decide
+
+/-! ### Tie to the source: the allocator arithmetic and the system-call arguments as translated from `protected.rs`
+(`DryocVerif/Gen/Protected.lean`, regenerated by `tools/rs2lean.py` on every run) are the ones the model uses. -/
+
+theorem translated_page_round (size P : Nat) : Gen.Protected._page_round size P = Model.Protected.pageRound P size :=
+  Proofs.GenProtected.page_round_eq_model size P
+
+theorem translated_alloc (c : Model.Protected.Cfg) (m : Model.Protected.Mach) (size : Nat) :
+    Model.Protected.alloc c m size =
+      (let P := c.P
+       let base := m.k.brk
+       let a := base * P
+       let k0 : Model.Protected.Kernel := { m.k with brk := base + Gen.Protected.allocate_size size P / P }
+       let k1 := Model.Protected.mprotect P k0 a P .none
+       let k2 := Model.Protected.mprotect P k1 (a + Gen.Protected.allocate_aft_offset size P) P .none
+       let k3 := Model.Protected.mprotect P k2 (a + P) size .rw
+       ({ m with k := k3 }, base)) :=
+  Proofs.GenProtected.alloc_eq_gen c m size
+
+theorem translated_dealloc_offset (size P : Nat) :
+    Gen.Protected.deallocate_aft_offset size P = P + Model.Protected.pageRound P size :=
+  Proofs.GenProtected.deallocate_aft_offset_eq_model size P
+
+/-- every mlock / munlock / mprotect wrapper passes the full slice length … -/
+theorem translated_syscall_lengths (data : Bytes) :
+    Gen.Protected.mlock_len data = data.length ∧ Gen.Protected.mlock_undo_len data = data.length
+    ∧ Gen.Protected.munlock_len data = data.length ∧ Gen.Protected.mprotect_readonly_len data = data.length
+    ∧ Gen.Protected.mprotect_readwrite_len data = data.length ∧ Gen.Protected.mprotect_noaccess_len data = data.length :=
+  Proofs.GenProtected.syscall_lengths data
+
+/-- … and the protection flags of the permission the model applies -/
+theorem translated_syscall_flags :
+    Gen.Protected.mprotect_readonly_prot = Proofs.GenProtected.permFlags .r
+    ∧ Gen.Protected.mprotect_readwrite_prot = Proofs.GenProtected.permFlags .rw
+    ∧ Gen.Protected.mprotect_noaccess_prot = Proofs.GenProtected.permFlags .none :=
+  Proofs.GenProtected.syscall_flags
 
 end DryocVerif.Properties.C14
